@@ -22,9 +22,6 @@ pub fn model_block_on<F: core::future::Future>(f: F) -> F::Output {
 
 pub mod sync {
     pub mod mpsc {
-        use std::cell::RefCell;
-        use std::collections::VecDeque;
-        use std::rc::Rc;
         pub mod error {
             #[derive(PartialEq, Eq, Clone, Copy)]
             pub struct SendError<T>(pub T);
@@ -47,14 +44,18 @@ pub mod sync {
             #[derive(Debug, PartialEq, Eq, Clone, Copy)]
             pub enum TryRecvError { Empty, Disconnected }
         }
-        struct Chan<T> { q: VecDeque<T>, cap: usize, rx_alive: bool }
-        pub struct Sender<T> { chan: core::mem::ManuallyDrop<Rc<RefCell<Chan<T>>>> }
-        pub struct Receiver<T> { chan: core::mem::ManuallyDrop<Rc<RefCell<Chan<T>>>> }
+        /// Queue of the model channel: four literal slots and a length (no VecDeque: its lazy allocation and
+        /// ring arithmetic under a symbolic "was anything sent?" guard is what exhausted memory). Shared by
+        /// sender and receiver through a raw, intentionally leaked pointer (single-threaded by construction).
+        pub const QCAP: usize = 4;
+        struct Chan<T> { s0: Option<T>, s1: Option<T>, s2: Option<T>, s3: Option<T>, len: usize, cap: usize, rx_alive: bool }
+        pub struct Sender<T> { chan: *mut Chan<T> }
+        pub struct Receiver<T> { chan: *mut Chan<T> }
         unsafe impl<T: Send> Send for Sender<T> {}
         unsafe impl<T: Send> Sync for Sender<T> {}
         unsafe impl<T: Send> Send for Receiver<T> {}
         impl<T> Clone for Sender<T> {
-            fn clone(&self) -> Self { Sender { chan: core::mem::ManuallyDrop::new(Rc::clone(&self.chan)) } }
+            fn clone(&self) -> Self { Sender { chan: self.chan } }
         }
         impl<T> core::fmt::Debug for Sender<T> {
             fn fmt(&self, f: &mut core::fmt::Formatter<'_>) -> core::fmt::Result { f.write_str("Sender") }
@@ -63,15 +64,17 @@ pub mod sync {
             fn fmt(&self, f: &mut core::fmt::Formatter<'_>) -> core::fmt::Result { f.write_str("Receiver") }
         }
         pub fn channel<T>(cap: usize) -> (Sender<T>, Receiver<T>) {
-            let c = Rc::new(RefCell::new(Chan { q: VecDeque::new(), cap, rx_alive: true }));
-            (Sender { chan: core::mem::ManuallyDrop::new(c.clone()) }, Receiver { chan: core::mem::ManuallyDrop::new(c) })
+            let cap = if cap > QCAP { QCAP } else { cap };
+            let c = Box::into_raw(Box::new(Chan { s0: None, s1: None, s2: None, s3: None, len: 0, cap, rx_alive: true }));
+            (Sender { chan: c }, Receiver { chan: c })
         }
         impl<T> Sender<T> {
             pub fn try_send(&self, t: T) -> Result<(), error::TrySendError<T>> {
-                let mut c = self.chan.borrow_mut();
+                let c = unsafe { &mut *self.chan };
                 if !c.rx_alive { return Err(error::TrySendError::Closed(t)); }
-                if c.q.len() >= c.cap { return Err(error::TrySendError::Full(t)); }
-                c.q.push_back(t);
+                if c.len >= c.cap { return Err(error::TrySendError::Full(t)); }
+                if c.len == 0 { c.s0 = Some(t); } else if c.len == 1 { c.s1 = Some(t); } else if c.len == 2 { c.s2 = Some(t); } else { c.s3 = Some(t); }
+                c.len += 1;
                 Ok(())
             }
             /// Model: a send on a full queue never completes. The returned value is a `Future` (for code
@@ -80,7 +83,7 @@ pub mod sync {
             pub fn send(&self, t: T) -> SendFut<'_, T> {
                 SendFut { tx: self, t: Some(t) }
             }
-            pub fn is_closed(&self) -> bool { !self.chan.borrow().rx_alive }
+            pub fn is_closed(&self) -> bool { unsafe { !(*self.chan).rx_alive } }
         }
         pub struct SendFut<'a, T> { tx: &'a Sender<T>, t: Option<T> }
         impl<'a, T> SendFut<'a, T> {
@@ -121,13 +124,20 @@ pub mod sync {
         }
         impl<T> Receiver<T> {
             pub fn try_recv(&mut self) -> Result<T, error::TryRecvError> {
-                self.chan.borrow_mut().q.pop_front().ok_or(error::TryRecvError::Empty)
+                let c = unsafe { &mut *self.chan };
+                if c.len == 0 { return Err(error::TryRecvError::Empty); }
+                let head = c.s0.take();
+                c.s0 = c.s1.take();
+                c.s1 = c.s2.take();
+                c.s2 = c.s3.take();
+                c.len -= 1;
+                match head { Some(t) => Ok(t), None => Err(error::TryRecvError::Empty) }
             }
             pub fn recv(&mut self) -> RecvFut<'_, T> {
                 RecvFut { rx: self }
             }
-            pub fn close(&mut self) { self.chan.borrow_mut().rx_alive = false; }
-            pub fn len(&self) -> usize { self.chan.borrow().q.len() }
+            pub fn close(&mut self) { unsafe { (*self.chan).rx_alive = false; } }
+            pub fn len(&self) -> usize { unsafe { (*self.chan).len } }
         }
     }
     pub mod oneshot {
